@@ -536,21 +536,4 @@ theorem wildcard_narrows (R : RCtx) (env : Env) (B D : Group) (hacc : accepted R
     (n : QN) (hx : n.ns ≠ xsiNs) (h : mergedAdmits env B D n = true) : baseAdmits env B n = true := by
   exact wildcard_narrows_aux R env B D hacc n hx h
 
-/-! concrete witnesses -/
-def semT : Sem := { validT := fun t v => t != 0 || v == "1" || v == "2", valueEq := fun _ a b => a == b }
-def RT : RCtx := { tyDerived := fun d b => d == b || b == 2, tyIsAnySimple := fun t => t == 2, norm := fun _ x => x }
-def envT : Env := { globals := [], loaded := ["", "urn:t"] }
-def qA : QN := ⟨"", "a"⟩
-def anyLax : AnyAttr := { wc := { ns := .any, tns := "urn:t" }, pc := .lax }
-def anyStrict : AnyAttr := { wc := { ns := .any, tns := "urn:t" }, pc := .strict }
-
-example : accepted RT envT ⟨[{ name := qA, ty := 0 }], some anyLax⟩ ⟨[{ name := qA, ty := 0, use := .prohibited }], some anyLax⟩ = true ∧
-  validFor semT envT {} (merged ⟨[{ name := qA, ty := 0 }], some anyLax⟩ ⟨[{ name := qA, ty := 0, use := .prohibited }], some anyLax⟩) [(qA, "x")] = true ∧
-  validFor semT envT {} ⟨[{ name := qA, ty := 0 }], some anyLax⟩ [(qA, "x")] = false := by decide
-example : accepted RT envT ⟨[{ name := qA, ty := 0 }], none⟩ ⟨[{ name := qA, ty := 2 }], none⟩ = true ∧
-  validFor semT envT {} (merged ⟨[{ name := qA, ty := 0 }], none⟩ ⟨[{ name := qA, ty := 2 }], none⟩) [(qA, "x")] = true ∧
-  validFor semT envT {} ⟨[{ name := qA, ty := 0 }], none⟩ [(qA, "x")] = false := by decide
-example : accepted RT envT ⟨[], some anyStrict⟩ ⟨[{ name := qA, ty := 0 }], none⟩ = true ∧
-  validFor semT envT {} (merged ⟨[], some anyStrict⟩ ⟨[{ name := qA, ty := 0 }], none⟩) [(qA, "1")] = true ∧
-  validFor semT envT {} ⟨[], some anyStrict⟩ [(qA, "1")] = false := by decide
 end XsVerif.AttrRestr
